@@ -1,6 +1,7 @@
 package main
 
 import (
+	"encoding/json"
 	"fmt"
 	"os"
 	"path/filepath"
@@ -22,6 +23,8 @@ type Module struct {
 	Funcs    map[string]*ssa.Function
 	DB       *ContractDB
 	LoadTime time.Duration
+	closed      map[string]json.RawMessage
+	closedTried map[string]bool
 }
 
 const verifRoot = "/verif"
